@@ -315,7 +315,8 @@ pub fn s_rtcp_marshal(run: &mut Run, toks: &[&str]) -> (String, Fails) {
                             RtcpPacket::SenderReport(mut s) => { s.report_blocks = s.report_blocks.iter().map(sat).collect(); RtcpPacket::SenderReport(s) }
                             RtcpPacket::ReceiverReport(mut s) => { s.report_blocks = s.report_blocks.iter().map(sat).collect(); RtcpPacket::ReceiverReport(s) }
                             o => o }).collect();
-                        if back != want { f.push(("codec:rr:loss-saturation".into(), show_rtcps(&back))); }
+                        for (w, b) in want.iter().zip(&back) { if matches!(w, RtcpPacket::SenderReport(_) | RtcpPacket::ReceiverReport(_)) && w != b {
+                            f.push(("codec:rr:loss-saturation".into(), show_rtcp(b))); } }
                     }
                     else if all_in {
                         let want: Vec<RtcpPacket> = ps.iter().map(norm).collect();
